@@ -232,16 +232,24 @@ def admissible_cmp_pairs():
     return out
 
 
-def job_cmp(Ka, Kb, ua, ub, op):
+def job_cmp(Ka, Kb, ua, ub, op, history=False):
     def body(c, O):
-        x = c.real("x")
-        y = c.real("y")
-        a = construct(c, O, Ka, x, ua, "a")
-        if a is None:
-            return
-        b = construct(c, O, Kb, y, ub, "b")
-        if b is None:
-            return
+        if history:
+            # both operands were constructed in another unit and converted in place beforehand
+            A = operand(c, O, Ka, "x", ua, "a", via=_other_unit(Ka, ua))
+            B = operand(c, O, Kb, "y", ub, "b", via=_other_unit(Kb, ub)) if A is not None else None
+            if A is None or B is None:
+                return
+            (a, _, x), (b, _, y) = A, B
+        else:
+            x = c.real("x")
+            y = c.real("y")
+            a = construct(c, O, Ka, x, ua, "a")
+            if a is None:
+                return
+            b = construct(c, O, Kb, y, ub, "b")
+            if b is None:
+                return
         sa, sb = snapshot(a), snapshot(b)
         try:
             res = CMP[op](a, b)
@@ -287,7 +295,7 @@ def job_cmp(Ka, Kb, ua, ub, op):
                 L.Implies(L.And(L.Not(beyond), L.gt(diff_a, L.mul(RHO, scale_a))), L.Iff(t, exact)), props=("C05",))
         frame_unchanged(O, "cmp:operands-unchanged", a, sa, props=("C19",))
         frame_unchanged(O, "cmp:operands-unchanged", b, sb, props=("C19",))
-    return Job(f"units.cmp[{Ka}({ua}) {op} {Kb}({ub})]", body, ("C05", "C07", "C19"),
+    return Job(f"units.cmp[{Ka}({ua}) {op} {Kb}({ub}){',operands-converted-in-place-beforehand' if history else ''}]", body, ("C05", "C07", "C19"),
                functions=[f"{FUNCS_BASE}.__{op}__", f"gearpy.units.units.{Kb}.to"], expect_covers=("cmp:returns",),
                meta=dict(family="cmp", Ka=Ka, Kb=Kb, ua=ua, ub=ub, op=op))
 
@@ -581,6 +589,8 @@ def all_jobs(exact_tables=None):
             for ub in code_units(Kb):
                 for op in CMP:
                     jobs.append(job_cmp(Ka, Kb, ua, ub, op))
+        for op in CMP:           # the same comparison on operands with a history (one unit pair per kind pair)
+            jobs.append(job_cmp(Ka, Kb, code_units(Ka)[0], code_units(Kb)[-1], op, history=True))
     allk = spec.KINDS + list(NUMS)
     for op in OPS:
         for Ka in allk:
